@@ -60,7 +60,8 @@ def build_api(case):
         if "iam" not in (mx_ or []) and "add-iam-methods" not in o_ and rng.random() < 0.45:
             iam_direct = rng.choice(["field", "rpcs"])
         api = apigen.conventional(rng, "q%d" % (case["seed"] % 100000), {"exotic": False, "ns": ["vp"], "shuffle_numbers": True,
-                                                                           "iam_direct": iam_direct, "lro_force": "async-rest" in o_})
+                                                                           "iam_direct": iam_direct, "lro_force": "async-rest" in o_,
+                                                                           "int_path_var": case["seed"] % 2 == 0, "reserved_path_var": case["seed"] % 3 == 0})
     finally:
         apigen.NO_REP_BOOL[0] = False
     label, opts, mixins = OPTSETS[case["optset"]]
